@@ -1,6 +1,7 @@
 (* C35 — Index storage encodings read back what was written.
    Only statements, closed by [exact] / a few lines of glue, with Print Assumptions. *)
 From OrdV Require Import Base.Prelude Codec.Varint Codec.Storage Proofs.Storage_proofs Generated.
+From OrdV Require Import Proofs.Storage_merged_laws Index.Cache Proofs.Cache_proofs.
 
 (* The constants of the packing and of the domain are the ones in the source. *)
 Theorem C35_domain :
@@ -101,7 +102,7 @@ Proof. exact header_roundtrip. Qed.
 (* UTXO entries: for every one of the eight index configurations, writing a well-formed entry the
    way the updater does (sat ranges or value, script, one push per inscription) and reading it
    back through parse / total_value / sat range loading / parse_inscriptions gives the entry. *)
-Theorem C35_utxo_entry : forall c e, wf c e ->
+Theorem C35_utxo_entry : forall c e, Storage_proofs.wf c e ->
   exists bs, write_entry c e = Ok bs /\ read_entry c bs = Ok e.
 Proof. exact utxo_entry_roundtrip. Qed.
 
@@ -119,8 +120,57 @@ Theorem C35_utxo_empty : forall c,
     read_entry c bs = Ok {| u_ranges := []; u_value := 0; u_script := []; u_inscriptions := [] |}.
 Proof.
   intros c. eexists. split; [apply empty_layout|]. apply read_entry_layout.
-  unfold wf. cbn. repeat split; try constructor; try (destruct (index_sats c)); try (destruct (index_addresses c));
+  unfold Storage_proofs.wf. cbn. repeat split; try constructor; try (destruct (index_sats c)); try (destruct (index_addresses c));
     try (destruct (index_inscriptions c)); cbn; try reflexivity; try constructor; unfold U64_MAX; lia.
+Qed.
+
+(* merged / empty are a monoid on the entries of the special outpoints (lost sats, unbound
+   inscriptions: no script and, without the sat index, no value; logical content = a pair
+   (sat ranges, inscriptions)).  These are exactly the two laws that the cache refinement of C12
+   assumes of its abstract [merged] and [empty]:
+   (1), (2) on the parsed representation the laws hold unconditionally;
+   (3), (4) for each of the eight index configurations the model's utxo_empty and byte-level
+            merged compute this monoid on every storable entry, and the result reads back;
+   (5) hence associativity and the unit laws hold for the byte-level functions themselves. *)
+Theorem C35_merged_is_monoid_on_special_entries :
+  (forall a b d, merged_s (merged_s a b) d = merged_s a (merged_s b d)) /\
+  (forall a, merged_s empty_s a = a) /\
+  (forall c, utxo_empty c = Ok (bytes_of c empty_s) /\ storable c empty_s) /\
+  (forall c a b, storable c (merged_s a b) ->
+     merged c (bytes_of c a) (bytes_of c b) = Ok (bytes_of c (merged_s a b)) /\
+     read_entry c (bytes_of c (merged_s a b)) = Ok (to_utxo (merged_s a b))) /\
+  (forall c a b d, storable c (merged_s (merged_s a b) d) ->
+     (do m <- merged c (bytes_of c a) (bytes_of c b); merged c m (bytes_of c d)) =
+       Ok (bytes_of c (merged_s (merged_s a b) d)) /\
+     (do m <- merged c (bytes_of c b) (bytes_of c d); merged c (bytes_of c a) m) =
+       Ok (bytes_of c (merged_s (merged_s a b) d)) /\
+     (do e <- utxo_empty c; merged c e (bytes_of c a)) = Ok (bytes_of c a) /\
+     (do e <- utxo_empty c; merged c (bytes_of c a) e) = Ok (bytes_of c a)).
+Proof.
+  split; [exact merged_s_assoc|]. split; [exact merged_s_empty_l|].
+  split; [intros c; split; [exact (empty_bytes c)|exact (storable_empty c)]|].
+  split; [intros c a b H; split; [exact (merged_bytes c a b H)|exact (read_bytes c _ H)]|].
+  exact merged_monoid_on_bytes.
+Qed.
+
+(* The cache refinement of C12 instantiated with this entry type: E := special_entry (the parsed
+   representation, on which the laws are unconditional, as the Section of Cache_proofs requires),
+   merged := merged_s, empty := empty_s.  Entries of ordinary outpoints are never merged by the
+   cache discipline (only Append on special outpoints calls merged), so for the purposes of this
+   instantiation they may be embedded as any special_entry value. *)
+Corollary C35_special_entries_cache_schedule_independent :
+  forall (A : Type) (special : N -> bool) bs1 bs2 c0 s0 s',
+    progs special_entry A bs1 = progs special_entry A bs2 ->
+    Forall (fun b => Cache.wf special_entry A special (fst b)) bs1 ->
+    Forall (fun b => Cache.wf special_entry A special (fst b)) bs2 ->
+    R special_entry A merged_s special c0 s0 ->
+    run_s special_entry A merged_s empty_s (progs special_entry A bs1) s0 = Some s' ->
+    caux special_entry A (run_c special_entry A merged_s empty_s special bs1 c0) =
+      caux special_entry A (run_c special_entry A merged_s empty_s special bs2 c0) /\
+    forall o, table special_entry A (run_c special_entry A merged_s empty_s special bs1 c0) o =
+              table special_entry A (run_c special_entry A merged_s empty_s special bs2 c0) o.
+Proof.
+  intros A special. exact (schedule_independent special_entry A merged_s empty_s special merged_s_assoc merged_s_empty_l).
 Qed.
 
 (* Non-vacuity: the last sat of the supply with a full first-epoch subsidy is in the domain. *)
@@ -136,10 +186,10 @@ Example C35_nonvacuous_utxo :
   let c := {| index_sats := true; index_addresses := true; index_inscriptions := true |} in
   let e := {| u_ranges := [(0, 5000000000); (STORAGE_SAT_SUPPLY - 1, STORAGE_SAT_SUPPLY)]; u_value := 5000000001;
               u_script := [81; 32; 7]; u_inscriptions := [(0, 0); (U32_MAX, U64_MAX)] |} in
-  wf c e /\ (do bs <- write_entry c e; read_entry c bs) = Ok e.
+  Storage_proofs.wf c e /\ (do bs <- write_entry c e; read_entry c bs) = Ok e.
 Proof.
   split; [|vm_compute; reflexivity].
-  unfold wf, range_ok, ins_ok. cbn. repeat split; repeat constructor; cbn; vm_compute; try reflexivity; intros H; discriminate H.
+  unfold Storage_proofs.wf, range_ok, ins_ok. cbn. repeat split; repeat constructor; cbn; vm_compute; try reflexivity; intros H; discriminate H.
 Qed.
 
 Print Assumptions C35_sat_range.
@@ -148,3 +198,5 @@ Print Assumptions C35_rune_entry.
 Print Assumptions C35_header_layout.
 Print Assumptions C35_utxo_entry.
 Print Assumptions C35_merged.
+Print Assumptions C35_merged_is_monoid_on_special_entries.
+Print Assumptions C35_special_entries_cache_schedule_independent.
